@@ -29,6 +29,14 @@ def gen_cases(tier, seed):
         c = D.random_dataset(rng, "P/%d/%d" % (seed, i), scheme=scheme, n_part=int(rng.integers(1, 4)), pkinds=D.ALL_PKINDS,
                              max_rows=120, partition_nulls=True, min_rows=1,
                              value_kinds=D.VALUE_KINDS_SAFE if i % 2 else F.ALL_KINDS)
+        if i % 7 == 3 and scheme == "hive":
+            # partition column NAMES that are not plain identifiers (still legal path text: no '/' or '=')
+            names = ["my key", "region-id", "a.b", "gr\u00f6\u00dfe", "\u65e5\u4ed8", "x y-z.w"]
+            ren = {}
+            for j_, pc_ in enumerate([c_ for c_ in c["frame"]["cols"] if c_["name"] in (c["opts"].get("partition_on") or [])]):
+                ren[pc_["name"]] = names[(i // 7 + j_) % len(names)]
+                pc_["name"] = ren[pc_["name"]]
+            c["opts"]["partition_on"] = [ren.get(n_, n_) for n_ in c["opts"]["partition_on"]]
         if i % 6 == 5:
             # a frame whose row index has repeated labels (stacked frames) and is not written
             c["frame"]["index"] = {"kind": ["dup", "dup_str"][(i // 6) % 2]}
